@@ -13,6 +13,7 @@ kinds
   UCallNC m   a NON-const member function `m` of Circuit is called on it
   UPass   g   it is handed as a non-const reference to function / constructor `g`
   UStore  m   it initialises the reference member `m` of the enclosing class (constructor initialiser)
+  UParam  p   the function has a parameter `p` of type (non-const) Circuit& (so that the table knows every function that can receive one)
   UUnknown s  anything else (the expression escapes in a way not understood)
 Uses through a `const Circuit &` (implicit NoOp cast to const, const member functions) cannot modify the
 circuit and are not listed (C++'s type system is trusted for that; `const_cast` and `mutable` anywhere
@@ -77,6 +78,7 @@ class Analyzer:
         self.uses = []         # (function, kind, name, line)
         self.records = {}      # record decl id -> name
         self.this_mode = False # True while scanning a member function of Circuit itself
+        self.odd_source = None
         self.line = 0
 
     # ---------- declarations
@@ -118,6 +120,16 @@ class Analyzer:
                 return is_mut_circuit_type(rd.get("type", {}).get("qualType", "")) and is_mut_circuit_type(qt(n))
         if k == "MemberExpr":
             return is_mut_circuit_type(qt(n)) and not n.get("type", {}).get("qualType", "").startswith("const")
+        # any OTHER lvalue expression of type (non-const) Circuit: a cast, the result of a call (std::ref(c).get(), a getter returning
+        # Circuit&), a conditional ... -- fail closed: it is classified like the others AND reported as an unrecognised source
+        if k not in ("ParenExpr", "ImplicitCastExpr", "ExprWithCleanups", "MaterializeTemporaryExpr", "CXXBindTemporaryExpr", "ConstantExpr") \
+                and is_mut_circuit_type(qt(n)) and not n.get("type", {}).get("qualType", "").lstrip().startswith("const"):
+            if k == "UnaryOperator" and n.get("opcode") == "*":
+                inner = [c for c in n.get("inner", []) if isinstance(c, dict)]
+                if inner and inner[0].get("kind") in ("CXXThisExpr",) or (inner and inner[0].get("kind") == "ImplicitCastExpr" and any(w.get("kind") == "CXXThisExpr" for w in walk(inner[0]))):
+                    return False     # *this: handled from the CXXThisExpr below it
+            self.odd_source = k
+            return True
         return False
 
     def method_info(self, member_expr):
@@ -266,7 +278,10 @@ class Analyzer:
     def scan_body(self, fn, n, chain):
         chain.append(n)
         self.lineof(n)
+        self.odd_source = None
         if self.is_mut_circuit_expr(n):
+            if self.odd_source:
+                self.add(fn, "UUnknown", "mutable Circuit obtained through a " + self.odd_source, n)
             self.classify_circuit_use(fn, chain, len(chain) - 1)
         else:
             for c in n.get("inner", []) or []:
@@ -395,6 +410,9 @@ def translate(repo):
                 continue
             nfun += 1
             an.uses = []
+            for c in d.get("inner", []) or []:
+                if isinstance(c, dict) and c.get("kind") == "ParmVarDecl" and is_mut_circuit_type(c.get("type", {}).get("qualType", "")):
+                    an.uses.append((name, "UParam", c.get("name", "?") or "?", c.get("loc", {}).get("line", 0) or an.line))
             for c in d.get("inner", []) or []:
                 if isinstance(c, dict):
                     an.scan_body(name, c, [])
